@@ -39,6 +39,13 @@ Section FetchUrls.
     | (o, c', n) => (o, dir_set u c' d, n)
     end.
 
+  (* a loader built WITHOUT a project root (explain --sources): read_from_cache and write_to_cache
+     return None at once, so the fetch sees no entry and stores nothing *)
+  Definition fetch_noroot (p : policy) (now : N) (expected : option str) (srv : server) : outcome * N :=
+    match fetch H p now None expected srv with
+    | (o, _, n) => (o, n)
+    end.
+
   (* one step of a history over several URLs: which URL is configured, and the fetch *)
   Record ustep := { us_url : str; us_step : step }.
 
